@@ -184,6 +184,12 @@ func (m *c03Mon) logf(format string, a ...any) {
 	}
 }
 
+func (m *c03Mon) note(s string) {
+	m.mu.Lock()
+	m.logf("%s", s)
+	m.mu.Unlock()
+}
+
 func (m *c03Mon) violate(sig string, rt *c03Root, extra map[string]any) {
 	d := map[string]any{"history": m.desc, "events": append([]string(nil), m.log...), "seed": vkit.Seed(), "mode": m.mode, "getter": m.stack}
 	if rt != nil {
@@ -638,6 +644,7 @@ func TestC03(t *testing.T) {
 	}
 	part("hist", func() { c.histories(rng.Split("hist"), pool) })
 	part("draw", func() { c.drawStats(rng.Split("draw")) })
+	part("draw-wide", func() { c.drawWide(rng.Split("draw-wide")) })
 	wg.Wait()
 	// the end-to-end variant runs real (mock-)network round trips under real context deadlines: it
 	// runs after the CPU-heavy parts so that a starved attempt does not pass for a refused one
@@ -657,6 +664,7 @@ func TestC03(t *testing.T) {
 	run.Require("scripted/restart/crash-restart", 10)
 	run.Require("scripted/burst/same_block_getter_calls>=2", 10)
 	run.Require("draw/roots", 1000)
+	run.Require("scripted/dsfault/reads_failed", 10)
 	run.Require("e2e/cases_completed", 4)
 	run.Require("e2e/wrong_samples_reached_the_real_getter", 4)
 	run.Require("e2e/available/verified", 2)
